@@ -126,7 +126,7 @@ class UVL(Fmt):
                                                  "attr:list", "attr:list-with-bool", "attr:nested-list", "attr:nested-map",
                                                  "attr:empty-list", "attr:float-many-digits", "attr:big-int",
                                                  "attr:zero-false", "attr:empty-map", "attr:nested-map-key-abstract",
-                                                 "attr:map-valueless-keys")]
+                                                 "attr:map-valueless-keys", "attr:str-syntax", "attr:list-str-syntax")]
         c += [("attr:many", inject.inj_attr_many), ("attr:name-needs-quote", inject.inj_attr_name("unit cost")),
               ("attr:name-keyword", inject.inj_attr_name("mandatory")), ("attr:null-value", inject.inj_attr_null),
               ("attr:same-list-value", inject.inj_same_list_value), ("name:strip-twin", inject.inj_strip_twin)]
@@ -140,6 +140,7 @@ class UVL(Fmt):
                   "name:combining", "name:squote", "name:backslash", "name:xml-special", "name:long200",
                   "name:unicode-digit", "name:line-separators", "name:numeric-looking"):
             c.append((t, inject.inj_rename(t)))
+        c.append(("name:norm-twin", inject.inj_norm_twin))
         c.append(("name:dash-twin", inject.inj_dash_twin))
         c.append(("name:uvl-keyword", inject.inj_rename("name:uvl-keyword", inject.UVL_KEYWORDS)))
         c.append(("name:case-twin", inject.inj_case_twin))
@@ -186,9 +187,9 @@ class JSONF(Fmt):
                                                  "attr:str-empty", "attr:str-squote", "attr:str-dquote",
                                                  "attr:empty-list", "attr:float-many-digits", "attr:big-int",
                                                  "attr:zero-false", "attr:empty-map", "attr:nested-map-key-abstract",
-                                                 "attr:map-valueless-keys")]
+                                                 "attr:map-valueless-keys", "attr:str-syntax", "attr:list-str-syntax")]
         c += [("attr:many", inject.inj_attr_many), ("attr:name-needs-quote", inject.inj_attr_name("unit cost")),
-              ("attr:name-unicode", inject.inj_attr_name("coût")), ("attr:null-value", inject.inj_attr_null),
+              ("attr:name-unicode", inject.inj_attr_name("coût")), ("attr:name-abstract", inject.inj_attr_named_abstract), ("attr:null-value", inject.inj_attr_null),
               ("attr:same-list-value", inject.inj_same_list_value), ("name:strip-twin", inject.inj_strip_twin)]
         c += ctc_classes(LOG8)
         c += [("ctc:name-unicode", inject.inj_ctc_name("règle №1")), ("ctc:name-quote", inject.inj_ctc_name('say "x"'))]
@@ -198,6 +199,7 @@ class JSONF(Fmt):
         c.append(("name:root-space", inject.inj_rename("name:space", where="root")))
         c.append(("name:all-hostile", inject.inj_rename_all("name:punct")))
         c.append(("name:case-twin", inject.inj_case_twin))
+        c.append(("name:norm-twin", inject.inj_norm_twin))
         c.append(("name:dash-twin", inject.inj_dash_twin))
         c.append(("name:nfc-twin", inject.inj_nfc_twin))
         c.append(("rel:card[a..*]", inject.inj_group(lambda k: 1 if k < 3 else 2, -1)))
@@ -236,7 +238,7 @@ class AFM(Fmt):
 
     def classes(self):
         c = list(REL_COMMON) + list(REL_CARD) + list(REL_MULTI)
-        c += [("attr:afm-int-range", inject.inj_afm_attr("int-range")), ("attr:afm-two-ranges", inject.inj_afm_attr("two-ranges")),
+        c += [("attr:afm-int-range", inject.inj_afm_attr("int-range")), ("attr:afm-two-ranges", inject.inj_afm_attr("two-ranges")), ("attr:afm-odd-ranges", inject.inj_afm_attr("odd-ranges")),
               ("attr:afm-enum", inject.inj_afm_attr("enum")), ("attr:afm-enum-strings", inject.inj_afm_attr_strings),
               ("attr:afm-same-domain", inject.inj_afm_same_domain)]
         c += ctc_classes(LOG7)
@@ -261,6 +263,7 @@ class FIDE(Fmt):
         c.append(("name:case-twin", inject.inj_case_twin))
         c.append(("name:nfc-twin", inject.inj_nfc_twin))
         c.append(("name:strip-twin", inject.inj_strip_twin))
+        c.append(("name:norm-twin", inject.inj_norm_twin))
         return c
 
 
@@ -280,6 +283,7 @@ class GLENCOE(Fmt):
         c.append(("name:case-twin", inject.inj_case_twin))
         c.append(("name:nfc-twin", inject.inj_nfc_twin))
         c.append(("name:strip-twin", inject.inj_strip_twin))
+        c.append(("name:norm-twin", inject.inj_norm_twin))
         return c
 
 
@@ -362,6 +366,27 @@ def history_write_after_edit(fmt, W, m, spec, workdir):
         for rel in reversed(f.relations):
             stack.extend(reversed(rel.children))
     edited = False
+    # a writer object constructed BEFORE the edits and asked to transform after them (see below)
+    try:
+        w_pre = W(os.path.join(workdir, "pre." + fmt.ext), m)
+    except Exception:  # noqa: BLE001
+        w_pre = None
+    orig_ctcs = m.ctcs
+    names_all = S.feature_names(spec)
+    if len(names_all) >= 2 and not spec.get("share_nodes"):
+        # the LIST of constraints edited: one appended in place / the list reassigned with one more
+        from flamapy.core.models.ast import AST
+        from flamapy.metamodels.fm_metamodel.models.feature_model import Constraint
+        import random as _random
+        rq = _random.Random(S.digest(spec) + "q")
+        added = {"name": "added-after-first-write", "ast": ["REQUIRES", names_all[-1], names_all[0]]}
+        newc = Constraint(added["name"], AST(S.build_ast(added["ast"])))
+        if rq.random() < 0.5:
+            m.ctcs.append(newc)
+        else:
+            m.ctcs = list(m.ctcs) + [newc]
+        es["ctcs"].append(added)
+        edited = True
     if "abstract" in fmt.fields and len(objs) > 1:
         objs[-1].is_abstract = not objs[-1].is_abstract
         for f in feats_s:
@@ -408,6 +433,17 @@ def history_write_after_edit(fmt, W, m, spec, workdir):
     if t_edit != t_fresh:
         return ("write-after-in-place-edit", "stale-output", "output after an in-place edit differs from the output of a "
                 "freshly built model with the same edit")
+    if w_pre is not None:
+        # the writer that was constructed before the edits: what it writes now must be the document of the model
+        # as it is (or, for a writer that copies its model at construction, of the model as it was) - not a mixture
+        try:
+            t_pre = w_pre.transform()
+            t_orig = W(os.path.join(workdir, "orig." + fmt.ext), S.build(spec)).transform()
+        except Exception as e:  # noqa: BLE001
+            return ("write-after-in-place-edit", f"raises:{type(e).__name__}@writer-constructed-before-edit", str(e)[:200])
+        if t_pre != t_fresh and t_pre != t_orig:
+            return ("write-after-in-place-edit", "mixed-output", "a writer constructed before an in-place edit wrote a document "
+                    "that is neither the edited model's nor the original model's")
     # the written document must denote the EDITED model (a cache keyed by an equality that ignores the edited
     # field would serve the stale document to the fresh model as well)
     try:
@@ -432,6 +468,10 @@ def history_write_after_edit(fmt, W, m, spec, workdir):
         for a, sa in zip(f.attributes, byname[f.name].get("attrs", [])):
             if "value" in sa:
                 a.default_value = sa["value"]
+    if m.ctcs is orig_ctcs:
+        del m.ctcs[len(spec.get("ctcs", [])):]
+    else:
+        m.ctcs = orig_ctcs
     for c, sc in zip(m.ctcs, spec.get("ctcs", [])):
         c.name = sc["name"]
     if ast_edit is not None:
